@@ -97,6 +97,12 @@ func infoFromCell(cell *hrpc.Cell) (hrpc.RegionInfo, error) {
 		// the key of a region's row in meta is the region name: table,startkey,id
 		return nil, fmt.Errorf("malformed region name in %q", cell)
 	}
+	if id := cell.Row[bytes.LastIndexByte(cell.Row, ',')+1:]; len(id) == 0 ||
+		id[0] < '0' || id[0] > '9' {
+		// the id is a timestamp. The regions cache relies on that: the key
+		// it searches with ends in ",:" to sort right after every id.
+		return nil, fmt.Errorf("malformed region id in %q", cell)
+	}
 	var regInfo pb.RegionInfo
 	err := proto.Unmarshal(value[4:], &regInfo)
 	if err != nil {
